@@ -135,6 +135,23 @@ def transaction_update_spents(txs, address):
     return txs
 
 
+def _whole_amount(value):
+    """
+    Amount in the smallest denominator as int. Raises TransactionError if the amount is not a whole number; the test
+    is exact for any numeric type (float(value).is_integer() loses the decimals of large Decimal or Fraction amounts)
+
+    :param value: Amount as returned by value_to_satoshi
+    :type value: int, float, Decimal, Fraction, ...
+
+    :return int:
+    """
+    if isinstance(value, int):
+        return value
+    if value != int(value):
+        raise TransactionError("Output must be of type integer and contain no decimals")
+    return int(value)
+
+
 class Input(object):
     """
     Transaction Input class, used by Transaction class
@@ -225,6 +242,8 @@ class Input(object):
             self.network = Network(network)
         self.index_n = index_n
         self.value = value_to_satoshi(value, network=network)
+        if self.value is not None:
+            self.value = _whole_amount(self.value)
         if not keys:
             keys = []
         self.keys = []
@@ -644,11 +663,7 @@ class Output(object):
         self.network = network
         if not isinstance(network, Network):
             self.network = Network(network)
-        self.value = value_to_satoshi(value, network=network)
-        if not isinstance(self.value, int):
-            if not float(self.value).is_integer():
-                raise TransactionError("Output must be of type integer and contain no decimals")
-            self.value = int(self.value)
+        self.value = _whole_amount(value_to_satoshi(value, network=network))
         self.lock_script = b'' if lock_script is None else to_bytes_binary(lock_script)
         self.public_hash = to_bytes_binary(public_hash)
         if isinstance(address, Address):
@@ -1971,12 +1986,11 @@ class Transaction(object):
         lock_script = to_bytes_binary(lock_script)
         if output_n is None:
             output_n = len(self.outputs)
-        if not float(value).is_integer():
-            raise TransactionError("Output must be of type integer and contain no decimals")
+        value = _whole_amount(value_to_satoshi(value, network=self.network))
         if lock_script.startswith(b'\x6a'):
             if value != 0:
                 raise TransactionError("Output value for OP_RETURN script must be 0")
-        self.outputs.append(Output(value=int(value), address=address, public_hash=public_hash,
+        self.outputs.append(Output(value=value, address=address, public_hash=public_hash,
                                    public_key=public_key, lock_script=lock_script, spent=spent, output_n=output_n,
                                    encoding=encoding, spending_txid=spending_txid, spending_index_n=spending_index_n,
                                    strict=strict, change=change, network=self.network.name))
